@@ -61,6 +61,8 @@ pub struct Inner {
     pub rng: Rng,
     pub failed: bool,
     pub flushed_after_last_write: bool,
+    /// number of bytes the sink held at its last successful flush (what a commit-on-flush sink would keep)
+    pub committed: usize,
 }
 
 #[derive(Clone)]
@@ -69,7 +71,7 @@ pub struct Sink(pub Rc<RefCell<Inner>>);
 impl Sink {
     pub fn new(policy: Policy) -> Sink {
         let seed = if let Policy::Random(s) = policy { s } else { 0 };
-        Sink(Rc::new(RefCell::new(Inner { data: vec![], log: vec![], policy, wcalls: 0, phase: 0, rng: Rng::new(seed, 0x51), failed: false, flushed_after_last_write: true })))
+        Sink(Rc::new(RefCell::new(Inner { data: vec![], log: vec![], policy, wcalls: 0, phase: 0, rng: Rng::new(seed, 0x51), failed: false, flushed_after_last_write: true, committed: 0 })))
     }
     pub fn set_phase(&self, p: usize) {
         self.0.borrow_mut().phase = p;
@@ -82,6 +84,11 @@ impl Sink {
     }
     pub fn log(&self) -> Vec<Event> {
         self.0.borrow().log.clone()
+    }
+    /// the bytes a sink that only commits on flush() would hold
+    pub fn committed_data(&self) -> Vec<u8> {
+        let s = self.0.borrow();
+        s.data[..s.committed].to_vec()
     }
     pub fn write_calls(&self) -> usize {
         self.0.borrow().wcalls
@@ -171,6 +178,7 @@ impl Write for Sink {
             }
         }
         s.flushed_after_last_write = true;
+        s.committed = offset;
         s.log.push(Event { write: false, offered: 0, outcome: Outcome::Accepted(0), phase, offset });
         Ok(())
     }
